@@ -70,6 +70,16 @@ def r03_3(ctx):
     n = ctx.norm(f)
     sc = ctx.scope(f)
     X, U, P, Z = f.params[2:6]
+    # the step's symbols are identified by the label they are created with, not by the local name that holds them
+    lab = {}
+    for nm, ds in sc.defs.items():
+        for d in ds:
+            if d.kind == "assign" and is_call_to(d.value, "sym") and d.value.args and isinstance(d.value.args[0], ast.Constant) and isinstance(d.value.args[0].value, str):
+                lab.setdefault(d.value.args[0].value, nm)
+    for role in ("DT", "DT_control", "t", "t0"):
+        if role not in lab:
+            raise AnalysisError("intg_builtin: no symbol labelled %r" % role)
+    DT, DTc, tt, t0 = lab["DT"], lab["DT_control"], lab["t"], lab["t0"]
     dnode, data = dict_literal(f, "data", n)
     if data is None:
         raise AnalysisError("intg_builtin: `data = {...}` not found")
@@ -77,7 +87,7 @@ def r03_3(ctx):
     ctx.check(len(fcalls) == 1, "intg_builtin evaluates the model once", detail="model evaluations", expected="1", found=str(len(fcalls)), fi=f)
     if fcalls:
         kw = {k.arg: n.poly(k.value) for k in fcalls[0].keywords}
-        want = {"x": Poly.atom(X), "u": Poly.atom(U), "p": Poly.atom(P), "z": Poly.atom(Z), "t": expected("t0+t*DT")}
+        want = {"x": Poly.atom(X), "u": Poly.atom(U), "p": Poly.atom(P), "z": Poly.atom(Z), "t": expected("%s+%s*%s" % (t0, tt, DT))}
         for slot, w in want.items():
             ctx.check(kw.get(slot) == w, "intg_builtin model slot %s" % slot, detail="model evaluated with another quantity", expected=w, found=kw.get(slot), fi=f, node=fcalls[0],
                       sample={"slot": slot, "value": str(kw.get(slot))})
@@ -86,7 +96,7 @@ def r03_3(ctx):
         if d.kind == "assign" and d.value in fcalls:
             resn = "res"
     nn = Norm(None)
-    want = {"x": X, "z": Z, "t": "t", "ode": "DT*res['ode']", "quad": "DT*res['quad']", "alg": "res['alg']", "p": "vertcat(U, DT, DT_control, P, t0)".replace("U", U).replace("P,", P + ",")}
+    want = {"x": X, "z": Z, "t": tt, "ode": "%s*res['ode']" % DT, "quad": "%s*res['quad']" % DT, "alg": "res['alg']", "p": "vertcat(%s, %s, %s, %s, %s)" % (U, DT, DTc, P, t0)}
     for key, text in want.items():
         got = nn.poly(data[key]) if key in data else None
         ctx.check(got == expected(text), "intg_builtin dae['%s']" % key, detail="time rescaling of the integrator problem", expected=expected(text), found=got, fi=f, node=dnode,
